@@ -10,7 +10,7 @@ CONSTANTS Routing0,    \* routing mode of this configuration
           JobKeys,     \* <<key of job 1, key of job 2, ...>>  (jobs are submitted in this order)
           JobTtl,      \* <<ttl of job 1, ...>>  (-1 = none)
           PortJobs,    \* jobs submitted with an acceptance port
-          Ends,        \* ways a job may end: subset of {"ok", "panic", "killmid"}
+          Ends,        \* ways a job may end: subset of {"ok", "panic", "killmid", "stopafter"}
           MaxKills,    \* kills of idle / finishing workers from outside
           MaxFaults,   \* jobs that may end badly
           Resizes,     \* sequence of requested pool sizes
@@ -27,6 +27,7 @@ Keys121 == <<1, 2, 1>>
 Keys1121 == <<1, 1, 2, 1>>
 Keys111 == <<1, 1, 1>>
 Keys1212 == <<1, 2, 1, 2>>
+Keys2111 == <<2, 1, 1, 1>>
 NoTtl3 == <<-1, -1, -1>>
 NoTtl4 == <<-1, -1, -1, -1>>
 Ttl3 == <<-1, 1, -1>>
@@ -78,6 +79,7 @@ MCNext ==
   \/ \E i \in Incs : ("ok" \in Ends /\ ~act[i].kill /\ WorkerEnd(i, "ok") /\ Same)
   \/ \E i \in Incs : \E how \in Ends \ {"ok"} :
         (env.faults < MaxFaults /\ ~act[i].kill /\ WorkerEnd(i, how) /\ env' = [env EXCEPT !.faults = @ + 1])
+  \/ \E i \in Incs : (WorkerClosing(i) /\ Same)
   \/ \E i \in Incs : (MayDie(i) /\ WorkerDead(i) /\ Same)
 MCSpec == MCInit /\ [][MCNext]_vars
 =============================================================================
